@@ -334,7 +334,10 @@ VOCAB = ["the", "of", "and", "to", "a", "in", "is", "for", "file", "files", "pat
          "reads", "every", "entry", "when", "given", "value", "values", "default", "used", "instead", "only", "if", "set,",
          "otherwise", "ignored.", "must", "exist", "before", "running", "caf#", "na#ve", "r#sum#", "(see", "below)",
          "format:", "json,", "yaml", "or", "plain", "text.", "UTF8", "configuration", "internationalization", "x", "1", "42.",
-         "verbosely", "print", "nothing", "at", "all", "characteristically", "incomprehensibilities"]
+         "verbosely", "print", "nothing", "at", "all", "characteristically", "incomprehensibilities",
+         # blank-free tokens longer than the text columns of a 40-80 column terminal (cut anywhere / after a hyphen)
+         "https://example.org/docs/gettingstarted/installguide.html", "/srv/data-2026/build-42/artifacts_0001/output-7.tar.gz",
+         "https://example.org/a/very/long/path/segment/that/keeps/going/and/going/index.html?x=1&y=2"]
 CMD_NAMES = ["add", "remove", "list", "show", "config", "init", "update", "self", "cache", "clear", "run", "build", "env",
              "check", "lock", "export", "b2", "server", "start", "stop", "dry-run", "make-all"]
 ARG_NAMES = ["name", "path", "file", "target", "source", "dest", "key", "value", "package", "version", "id", "n", "args",
